@@ -193,6 +193,9 @@ func (c *concretizer) stmt(s xStmt) {
 		if s.G == "argfail" {
 			// SafeWriter called with arguments, the second of which fails: {{ raw: x, fail() }}
 			c.w("{{ " + s.F + ": " + c.expr(s.E) + ", fail() }}")
+		} else if s.G == "arginc" {
+			// the first argument renders a template that uses a SafeWriter itself
+			c.w("{{ " + s.F + ": includeIfExists(\"swinner\"), " + c.expr(s.E) + " }}")
 		} else if s.F != "" {
 			c.w("{{ " + c.expr(s.E) + " | " + s.F + " }}")
 		} else {
